@@ -90,7 +90,11 @@ func c09Count(n int64) string {
 // c09Log builds the log of n records regenerated from sub and evaluates the layout and tree
 // hash clauses against the independent RFC 6962 implementation.
 func c09Log(sub int64, n int) (msg string, l *gen.MemLog, rfc *gen.Rfc6962) {
-	records := gen.LogRecords(rand.New(rand.NewSource(sub)), n)
+	return c09LogOf(gen.LogRecords(rand.New(rand.NewSource(sub)), n))
+}
+
+func c09LogOf(records [][]byte) (msg string, l *gen.MemLog, rfc *gen.Rfc6962) {
+	n := len(records)
 	rfc = gen.NewRfc6962(records)
 	l = &gen.MemLog{}
 	check := func(m int) string {
@@ -305,6 +309,75 @@ func c09Record(id int64, text, rest []byte) string {
 	return ""
 }
 
+// c09HashJSON: a hash survives encoding/json in every position a value can take (bare value,
+// pointer, struct field, map value, slice element, tlog.Tree by value): the text is the base64
+// string form and decoding gives the same hash back.
+func c09HashJSON(h tlog.Hash, n int64) string {
+	want := `"` + base64.StdEncoding.EncodeToString(h[:]) + `"`
+	type holder struct{ H tlog.Hash }
+	type pholder struct{ H *tlog.Hash }
+	hp := h
+	forms := []struct {
+		name string
+		v    any
+		text string
+		back func(js []byte) (tlog.Hash, error)
+	}{
+		{"bare Hash value", h, want, func(js []byte) (x tlog.Hash, err error) { err = json.Unmarshal(js, &x); return }},
+		{"*Hash", &hp, want, func(js []byte) (x tlog.Hash, err error) { err = json.Unmarshal(js, &x); return }},
+		{"struct{H Hash} by value", holder{h}, `{"H":` + want + `}`, func(js []byte) (tlog.Hash, error) { var x holder; err := json.Unmarshal(js, &x); return x.H, err }},
+		{"*struct{H Hash}", &holder{h}, `{"H":` + want + `}`, func(js []byte) (tlog.Hash, error) { var x holder; err := json.Unmarshal(js, &x); return x.H, err }},
+		{"struct{H *Hash}", pholder{&hp}, `{"H":` + want + `}`, func(js []byte) (tlog.Hash, error) {
+			var x pholder
+			err := json.Unmarshal(js, &x)
+			if x.H == nil {
+				return tlog.Hash{}, fmt.Errorf("nil after %v", err)
+			}
+			return *x.H, err
+		}},
+		{"map[string]Hash", map[string]tlog.Hash{"k": h}, `{"k":` + want + `}`, func(js []byte) (tlog.Hash, error) { var x map[string]tlog.Hash; err := json.Unmarshal(js, &x); return x["k"], err }},
+		{"[]Hash", []tlog.Hash{h}, `[` + want + `]`, func(js []byte) (tlog.Hash, error) {
+			var x []tlog.Hash
+			err := json.Unmarshal(js, &x)
+			if len(x) != 1 {
+				return tlog.Hash{}, fmt.Errorf("%d elements after %v", len(x), err)
+			}
+			return x[0], err
+		}},
+		{"[1]Hash by value", [1]tlog.Hash{h}, `[` + want + `]`, func(js []byte) (tlog.Hash, error) { var x [1]tlog.Hash; err := json.Unmarshal(js, &x); return x[0], err }},
+		{"tlog.Tree by value", tlog.Tree{N: n, Hash: h}, fmt.Sprintf(`{"N":%d,"Hash":%s}`, n, want), func(js []byte) (tlog.Hash, error) {
+			var x tlog.Tree
+			err := json.Unmarshal(js, &x)
+			if err == nil && x.N != n {
+				err = fmt.Errorf("N=%d", x.N)
+			}
+			return x.Hash, err
+		}},
+		{"interface holding a Hash", any(h), want, func(js []byte) (x tlog.Hash, err error) { err = json.Unmarshal(js, &x); return }},
+	}
+	for _, f := range forms {
+		var js []byte
+		var err error
+		if p, pm := hx.Guard(func() { js, err = json.Marshal(f.v) }); p {
+			return fmt.Sprintf("json.Marshal(%s) panics: %s", f.name, pm)
+		}
+		if err != nil {
+			return fmt.Sprintf("json.Marshal(%s): %v", f.name, err)
+		}
+		if string(js) != f.text {
+			return fmt.Sprintf("json.Marshal(%s) = %s, want the base64 string form %s", f.name, js, f.text)
+		}
+		var back tlog.Hash
+		if p, pm := hx.Guard(func() { back, err = f.back(js) }); p {
+			return fmt.Sprintf("json.Unmarshal(%s) panics: %s", f.name, pm)
+		}
+		if err != nil || back != h {
+			return fmt.Sprintf("json.Unmarshal(json.Marshal(%s)) = %v, %v; want %v", f.name, back, err, h)
+		}
+	}
+	return ""
+}
+
 func c09Hash(h tlog.Hash) string {
 	h2, err := tlog.ParseHash(h.String())
 	if err != nil || h2 != h {
@@ -513,6 +586,30 @@ func runC09(c *hx.Ctx) {
 	}
 	index(-1, 5)
 	index(-3, 0)
+
+	// ---- leaf hash at EVERY length 0..1100 (random content; same content, last byte changed)
+	for n := 0; n <= 1100; n++ {
+		d := make([]byte, n)
+		r.Read(d)
+		for k := 0; k < 2 && (k == 0 || n > 0); k++ {
+			if k == 1 {
+				d[n-1] ^= byte(1 + r.Intn(255))
+			}
+			if rh := tlog.RecordHash(d); rh != gen.RfcLeaf(d) {
+				c.Check("record-hash-is-sha256(0x00||data)", false, "", c09In{Op: "leaf", Hex: hex.EncodeToString(d)}, rh.String())
+			} else {
+				c.Check("record-hash-is-sha256(0x00||data)", true, "", nil, "")
+			}
+		}
+		c.Count("record-hash-length-sweep")
+	}
+	// ---- logs whose records have boundary lengths (60..70, 127..130, 254..258, 510..514)
+	for _, n := range []int{26, 33 + r.Intn(40)} {
+		sub := r.Int63()
+		msg, _, _ := c09LogOf(gen.BoundaryLenRecords(rand.New(rand.NewSource(sub)), n))
+		c.Check("log: store length, tree hash of every prefix and every stored hash vs independent RFC 6962", msg == "", "", c09In{Op: "lenlog", Sub: sub, N: int64(n)}, msg)
+		c.Count("boundary-length-log")
+	}
 
 	// ---- logs written through a reader whose results alias its own storage (oracle only)
 	for _, n := range []int{131, 259 + r.Intn(8)*8, 515 + r.Intn(4)*8, 1027 + r.Intn(2)*8, 3 + 8*r.Intn(12), r.Intn(300)} {
@@ -757,6 +854,11 @@ func runC09(c *hx.Ctx) {
 		c.Case("ParseHash", wire.S(s), tlImplParseHash(s))
 		msg := c09Hash(h)
 		c.Check("hash-text-roundtrip", msg == "", "", c09In{Op: "hash", Hex: hex.EncodeToString(h[:])}, msg)
+		if i%4 == 0 {
+			tn := gen.RandSize(r, 62)
+			jmsg := c09HashJSON(h, tn)
+			c.Check("hash-survives-encoding/json-in-every-position", jmsg == "", "", c09In{Op: "hashjson", N: tn, Hex: hex.EncodeToString(h[:])}, jmsg)
+		}
 		js, _ := h.MarshalJSON()
 		c.Case("HashMarshalJSON", wire.Bytes(h[:]), wire.Bytes(js))
 		c.Case("HashUnmarshalJSON", wire.Bytes(js), tlImplUnmarshal(js))
@@ -824,6 +926,10 @@ func replayC09(raw json.RawMessage) (bool, string) {
 		msg = c09Count(in.N)
 	case "log":
 		msg, _, _ = c09Log(in.Sub, int(in.N))
+	case "lenlog":
+		msg, _, _ = c09LogOf(gen.BoundaryLenRecords(rand.New(rand.NewSource(in.Sub)), int(in.N)))
+	case "hashjson":
+		msg = c09HashJSON(h1, in.N)
 	case "aliaslog":
 		msg = c09AliasLog(in.Sub, int(in.N))
 	case "tree":
